@@ -698,6 +698,64 @@ func errShapes(a *big.Int) {
 			}
 		}
 	}
+	// EVERY vector of entry lengths (and two non-length malformations) over lists of 1..4 entries: the
+	// entries are cut one after the other from the byte stream sig_0 || sig_1 || ..., so wrong lengths that
+	// compensate each other (47+49, 96+0, ...) re-cut into the valid signatures. Any entry that is not
+	// 48 well-formed bytes makes the call fail with the invalid-signature error, whatever the others are.
+	{
+		lens := []int{48, 0, 1, 47, 49, 95, 96, 97}
+		kinds := len(lens) + 2 // + bad-header, not-on-curve
+		var stream []byte
+		for i := 0; i < 12; i++ {
+			stream = append(stream, syms[i%len(syms)].sigs[0]...)
+		}
+		nVec := 0
+		for L := 1; L <= 4; L++ {
+			tot := 1
+			for i := 0; i < L; i++ {
+				tot *= kinds
+			}
+			for v := 1; v < tot; v++ {
+				l := make([]crypto.Signature, L)
+				desc := make([]string, L)
+				off, x, bad := 0, v, false
+				for i := 0; i < L; i++ {
+					k := x % kinds
+					x /= kinds
+					switch {
+					case k < len(lens):
+						l[i] = append([]byte{}, stream[off:off+lens[k]]...)
+						off += lens[k]
+						desc[i] = fmt.Sprintf("len-%d", lens[k])
+						bad = bad || lens[k] != 48
+					case k == len(lens):
+						l[i], desc[i], bad = crypto.BLSInvalidSignature(), "bad-header", true
+					default:
+						l[i], desc[i], bad = nonres, "not-on-curve", true
+					}
+				}
+				if !bad {
+					continue
+				}
+				var err error
+				var out crypto.Signature
+				p := guard(func() { out, err = crypto.AggregateBLSSignatures(l) })
+				run.Add("evaluations", 1)
+				nVec++
+				if p != "" || out != nil || !crypto.IsInvalidSignatureError(err) {
+					hx := make([]string, L)
+					for i := range l {
+						hx[i] = ev.Hex(l[i])
+					}
+					run.Violation("errors:malformed-signature:length-vector", fmt.Sprintf("AggregateBLSSignatures on entries %v (cut one after the other from a stream of valid signatures): (%x, %v) %s, want the invalid-signature error", desc, out, err, p),
+						map[string]any{"entries": desc, "signatures": hx})
+				}
+				run.Distinct(fmt.Sprintf("err/lenvec/%v", desc))
+				outcome("errors/malformed-signature-vector")
+			}
+		}
+		run.Set("malformed_length_vectors", nVec)
+	}
 	// the FULL structured candidate family (the one C01/C05 offer to Verify) as one entry of a list of
 	// three: every string that is not a canonical encoding of a curve point must make the aggregation
 	// fail with the invalid-signature error, every canonical one (in or outside G1) is summed
